@@ -278,10 +278,13 @@ func decode2Pre(level spec.Level, s string) (obj2, error) {
 	case spec.Temporal:
 		r := m2.NewTemporal()
 		snapViews(views2(nil, r, nil, level))
+		r.IsEmpty()
 		o.T, err = r.Decode(s)
 	default:
 		r := m2.NewEnvironmental()
 		snapViews(views2(nil, nil, r, level))
+		r.IsEmpty()
+		r.TemporalMetrics().IsEmpty()
 		o.E, err = r.Decode(s)
 	}
 	return o.refreshed(), err
